@@ -432,12 +432,48 @@ func checkLoaded(t *ast.Chain, accepted bool, payload []string) string {
 	return ""
 }
 
+// checkGrammar compares the implementation's accept/reject decision and tree with the oracle's own
+// reading of the published grammar (RefParse).
+func checkGrammar(src string, accepted bool, tree string) string {
+	if NestingDepth(src) > 16 {
+		return "" // the reference reading is exponential in the nesting depth
+	}
+	want, ok := RefParse(src)
+	switch {
+	case ok && !accepted:
+		return "text rejected although the published grammar accepts it as " + EncScript(want)
+	case !ok && accepted:
+		return "text accepted (as " + tree + ") although the published grammar rejects it"
+	case ok && EncScript(want) != tree:
+		return "tree " + tree + " differs from the one the published grammar assigns: " + EncScript(want)
+	}
+	return ""
+}
+
+// treeOfResult extracts the tree from a parse/parsex/load result line ("" if rejected by the parser).
+func treeOfResult(r []string) (string, bool) {
+	switch {
+	case r[0] == "ok" && len(r) >= 2:
+		return r[1], true
+	case r[0] == "err" && len(r) == 3:
+		return r[2], true
+	}
+	return "", false
+}
+
 // OracleC03 states C03 on one case.
 func OracleC03(c, res string) string {
 	f := strings.Split(c, " ")
 	r := strings.Split(res, " ")
 	if r[0] == "panic" {
 		return "panic: " + res
+	}
+	switch f[0] {
+	case "parse", "parsex", "load":
+		tree, accepted := treeOfResult(r)
+		if msg := checkGrammar(string(lib.ParseBytes(f[1])), accepted, tree); msg != "" {
+			return msg
+		}
 	}
 	switch f[0] {
 	case "deepparse":
